@@ -13,6 +13,7 @@ import GoHeader.Oracle.C15
 import GoHeader.Oracle.C16
 import GoHeader.Oracle.C09
 import GoHeader.Oracle.C13
+import GoHeader.Oracle.C05
 open GoHeader GoHeader.Oracle
 
 def evalLine (line : String) : Option Verdict :=
@@ -28,6 +29,8 @@ def evalLine (line : String) : Option Verdict :=
     | "C16" :: rest => some (evalC16 rest outs)
     | "C09" :: rest => some (evalC09 rest outs)
     | "C13" :: rest => some (evalC13 rest outs)
+    | "C05" :: rest => some (evalSession "C05" rest outs)
+    | "C18" :: rest => some (evalSession "C18" rest outs)
     | _ => some (.bad "unknown property tag")
 
 structure DAcc where
